@@ -520,6 +520,8 @@ func BFS(o Options, depth int, ops []string, apply func(r *Run, hist []string) S
 
 // Cases accumulates a bounded-exhaustive input enumeration.
 type Cases struct {
+	nviol    int
+	perClass map[string]int
 	res      *Result
 	distinct map[string]struct{}
 	start    time.Time
@@ -556,10 +558,21 @@ func (c *Cases) Expired() bool {
 }
 
 func (c *Cases) Violation(input string, class string, msg string) {
+	c.nviol++
+	if c.perClass == nil {
+		c.perClass = map[string]int{}
+	}
+	c.perClass[class]++
+	if c.perClass[class] > 2 && knownClass(c.res.Name, class) == "" {
+		return // two witnesses per class are reported; the rest only counted
+	}
+	if kc := knownClass(c.res.Name, class); kc != "" && c.perClass[class] > 1 {
+		return
+	}
 	c.res.Violations = append(c.res.Violations, Violation{Scenario: c.res.Name, Msgs: []string{msg}, History: []string{input}, Finger: fingerprint(c.res.Name, input, class), Class: class})
 }
 
-func (c *Cases) NumViolations() int { return len(c.res.Violations) }
+func (c *Cases) NumViolations() int { return c.nviol }
 
 func (c *Cases) Done() *Result {
 	c.res.States = len(c.distinct)
